@@ -323,6 +323,18 @@ def _chain(x, k):
     return v
 
 
+def idiv_scale(a, b, R):
+    """Lemma instance (R > 0, b != 0):  floor((a*R) / (b*R)) == floor(a / b)  and
+    (a*R) mod (b*R) == R * (a mod b)."""
+    P = cur()
+    a, b = z3.simplify(a), z3.simplify(b)
+    if is_num(b):
+        return
+    q1, m1 = idivmod(a * R, b * R)
+    q0, m0 = idivmod(a, b)
+    P.axiom(z3.Implies(b != 0, z3.And(q1 == q0, m1 == R * m0)))
+
+
 def bit(x, k):
     """bit k (k>=0 concrete) of the two's-complement expansion of integer term x."""
     x = z3.simplify(x)
